@@ -58,6 +58,7 @@ ANSWERS = {"yes": "yes\n", "Yes": "Yes\n", "no": "no\n", "n": "n\n",
 DEVICE_PIN = b"devp1234"
 _SEEDS_SEEN = set()
 TYPED_OK = "devp1234"       # what the operator types when asked: the device's PIN
+TYPED_NEW = "newp5678"      # ... and the new PIN they have in mind
 SEEDISH = {0x44: "SEED", 0x07: "WIPE", 0xA0: "SGX_ONBOARD"}
 PINISH = {0x41: "SEND_PIN", 0xFE: "UNLOCK", 0xA3: "SGX_UNLOCK", 0x08: "CHANGE_PIN",
           0xA5: "SGX_CHANGE_PASSWORD"}
@@ -76,6 +77,10 @@ def grid(tier, seed):
         for newpin, anyp, nou in itertools.product(PINS, [False, True], [False, True]):
             out.append(dict(st, cmd="changepin", pin="valid", new_pin=newpin, any_pin=anyp,
                             no_unlock=nou))
+            if newpin in ("valid", "typed-valid", "typed-bad-then-valid", "digits"):
+                # the current PIN is typed at the unlock prompt instead of given as an option
+                out.append(dict(st, cmd="changepin", pin="typed-valid", new_pin=newpin,
+                                any_pin=anyp, no_unlock=nou))
         for nou in (False, True):
             out.append(dict(st, cmd="pubkeys", pin="valid", any_pin=False, no_unlock=nou))
     return out
@@ -162,6 +167,17 @@ def run_case(c):
         queue = ["bad!", "1234567", TYPED_OK]
     else:
         queue = [TYPED_OK]
+    if cmd == "changepin":
+        # what the operator types, in order: the current PIN when the unlock step asks for it,
+        # then candidates for the new PIN until one is taken
+        queue = []
+        if pin_class == "typed-valid" and not c.get("no_unlock"):
+            queue.append(TYPED_OK)
+        if c["new_pin"] == "typed-valid":
+            queue.append(TYPED_NEW)
+        elif c["new_pin"] == "typed-bad-then-valid":
+            queue += ["bad!", "1234567", TYPED_NEW]
+        queue = queue or [TYPED_OK]
     new_queue = list(queue)
 
     def fake_getpass(prompt=""):
